@@ -32,7 +32,14 @@
       (`execAll_textual`), and the scope conditions depend on the old schema only up to `DB.equiv` (`UpScope.of_equiv`).
     * `model_next_diff_empty` — and then the diff of the newest revision against that history returns and both migrations
       are empty (`C03.equal_schemas_from_scripts` through `dbEquiv_of_equiv`).
+    * `model_down_returns` — **the way back**: with the hypotheses of `C02.schema_on_reference_engine` at every step as
+      well, replaying the down migrations the workflow recorded (`histD`), newest first, on the reference engine from the
+      newest revision's schema is well-formed at every statement and ends in the empty schema.  Step i's down migration
+      was computed against the history's schema of step i-1, which is only *equivalent* to revision i-1's: the steps
+      compose because the reference engine respects `TableSpec.equiv` — `exec_equiv`, all seventeen statement kinds,
+      Proofs/ExecEquiv — and keeps table names unique (`exec_nodup`).
 -/
+import SqlizeModel.Proofs.RoundsDown
 import SqlizeModel.Proofs.Rounds
 import SqlizeModel.Props.C01
 namespace Sqlize.C04
@@ -105,7 +112,6 @@ theorem down_returns (revs : List Script) : replayDown w revs (schemaAfter w rev
     simp only [replayDown, schemaAfter]
     rw [down_step]
     exact ih
-
 end Sqlize.C04
 
 namespace Sqlize.C04
@@ -130,6 +136,15 @@ theorem model_next_diff_empty (g : Globals) (hg : g.dialect = .mysql) (hio : g.i
       d.migrationUp g = .ok (d, []) ∧ d.migrationDown g = .ok (d, []) :=
   rounds_next_diff_empty g hg hio p older hrev hchain
 
+open Sqlize Sqlize.Spec in
+/-- the recorded down migrations, replayed newest first from the newest revision's schema, end in the empty schema -/
+theorem model_down_returns (g : Globals) (hg : g.dialect = .mysql) (hio : g.ignoreOrder = false)
+    (revs : List (List Stmt × Spec.DB))
+    (hrev : ∀ p ∈ revs, p.1.all Stmt.elemSafe = true ∧ p.1.all Stmt.plainOpts = true ∧ execAll false [] p.1 = some p.2)
+    (hc : ChainOK revs) (hcd : ChainDownOK revs) :
+    ∃ h ds, histD g (revs.map (·.1)) = .ok (h, ds) ∧ ds.length = revs.length ∧ replay (lastDB revs) ds = some [] :=
+  rounds_down_from_last g hg hio revs hrev hc hcd
+
 -- non-vacuity of `model_converges` (a test of its conclusion on one chain, not the theorem): three revisions — the pair of
 -- `C01.exOldW` / `C01.exNewW` and a third that drops a table and an index again —; the history is computed, accepted, and
 -- equivalent to the newest revision's schema; the decidable hypotheses hold
@@ -147,5 +162,11 @@ example : ∃ h dbH db3, histM {} [exRev3, C01.exNewW, C01.exOldW] = .ok h ∧ e
     execAll false [] exRev3 = some db3 ∧ h.length = 5 + 9 + 4 ∧ dbH.equiv db3 = true ∧
     h.all Stmt.elemSafe = true ∧ h.all Stmt.plainOpts = true :=
   ⟨_, _, _, by rfl, by rfl, by rfl, by decide, by decide, by decide, by decide⟩
+
+-- the same three revisions, the way back (a test of the conclusion of `model_down_returns`)
+open Sqlize Sqlize.Spec in
+example : ∃ h ds db3, histD {} [exRev3, C01.exNewW, C01.exOldW] = .ok (h, ds) ∧ execAll false [] exRev3 = some db3 ∧
+    ds.length = 3 ∧ replay db3 ds = some [] :=
+  ⟨_, _, _, by rfl, by rfl, by decide, by decide⟩
 
 end Sqlize.C04
